@@ -24,6 +24,21 @@ def check(ix, rep):
             exh.update_visitor_leaves(ix, rep, mon)
     rep.floor('(monitor, node class) dispatch cells', cells, 20 * 39)
 
+    # ---- the dense-time online monitor rejects bounded until through the TimedPrecedes node pastify() turns it into:
+    #      that rewrite must be unconditional
+    from sa.rules import pastify as PZ
+    pcls = ix.find_class('rtamt.pastifier.stl.pastifier', 'StlPastifier')
+    f = ix.resolve_method(pcls, 'visitTimedUntil')
+    if f is None:
+        raise AnalysisError('StlPastifier.visitTimedUntil vanished')
+    rep.analysed(f)
+    ret = PZ.HandlerInterp(ix, pcls, f, D.node_classes(ix)).run()
+    if ret is not None and ret[0] == 'build' and ret[1] == 'TimedPrecedes':
+        rep.ok('R-EXH', f.module.rel, f.qual, 'pastify:TimedUntil->TimedPrecedes', 'every bounded until becomes a precedes node, which the dense-time online monitor rejects', f.node.lineno)
+    else:
+        rep.fail('R-EXH', f.module.rel, f.qual, 'pastify:TimedUntil->TimedPrecedes', 'pastify() does not always turn a bounded until into a precedes node (%s): the dense-time online '
+                 'monitor then yields a value for a construct it does not support' % (ret[0] if ret else None), f.node.lineno)
+
     # ---- degenerate data: one-sample traces, surplus variables, order of inputs -------------------------
     seen = set()
     nfun = 0
